@@ -245,6 +245,7 @@ def check(ctx):
     dg = C.Differential(ctx, lbbin)
     dg.n = 500
     gate_eps = [gate_episode(ctx.rng) for _ in range(300 if ctx.thorough() else 60)] + [peer_gate_episode(ctx.rng) for _ in range(100 if ctx.thorough() else 20)]
+    ctx.cov["gate_episodes_by_peer_address_incl_ipv6_zones"] = 100 if ctx.thorough() else 20
     dg.check(gate_eps, oracle=gate_oracle, label="gate")
     ctx.cov["gate_episodes"] = len(gate_eps)
     # the limiter the balancer builds runs with the configured numbers (seconds become that many seconds)
